@@ -1397,10 +1397,15 @@ def parse_tree(
         mode_text = text[count:mode_end]
         if strict and mode_text.startswith(b"0"):
             raise ObjectFormatException(f"Invalid mode {mode_text!r}")
-        try:
-            mode = int(mode_text, 8)
-        except ValueError as exc:
-            raise ObjectFormatException(f"Invalid mode {mode_text!r}") from exc
+        # Octal digits only (after at most one "+", which the Rust
+        # implementation's from_str_radix allows), within 32 bits. int()
+        # alone also takes a sign, "_", surrounding whitespace and "0o".
+        mode_digits = mode_text[1:] if mode_text[:1] == b"+" else mode_text
+        if not mode_digits or mode_digits.strip(b"01234567"):
+            raise ObjectFormatException(f"Invalid mode {mode_text!r}")
+        mode = int(mode_digits, 8)
+        if mode > 0xFFFFFFFF:
+            raise ObjectFormatException(f"Invalid mode {mode_text!r}")
         name_end = text.index(b"\0", mode_end)
         name = text[mode_end + 1 : name_end]
 
